@@ -41,6 +41,7 @@ SUPP_THEOREMS = [
     "c08_content_refines_dispatch",
     "c08_response_independent_of_history",
     "c08_servers_independent",
+    "c08_reentrant_dispatch_independent",
 ]
 RULE = (
     "hardening sweep: falsy values (ids 0 / 0.0 / '', tool name '' and uri '' registered, falsy tool/resource/custom results, falsy "
@@ -120,7 +121,8 @@ GENERIC_PARAMS = ["<absent>", None, {}, {"x": 1, "_meta": {"progressToken": 0}},
                   {"progressToken": "tok", "progress": 1, "requestId": None},
                   {"requestId": 0, "progressToken": "", "name": "", "uri": "", "arguments": {}, "clientInfo": {}, "protocolVersion": ""}]
 IDS = IDS + H.SYNTAX_TEXT[:6]
-ODD_METHODS = ODD_METHODS + H.SYNTAX_TEXT
+ODD_METHODS = ODD_METHODS + H.SYNTAX_TEXT + ["\ufeffping", "ping\ufeff", "pi\u0301ng", "Ping", "tools/Call"]
+BIG_PARAMS = {"blob": "b" * 300000, "name": "echo", "uri": "file:///ok", "arguments": {"text": "t" * 100000}}
 TYPE_CLASSES = [None, True, False, 0, 7, -1, 1.5, 0.0, "", "x", [], ["x"], {}, {"x": 1}, "<absent>"]
 CORE_METHODS = H.BUILTIN + ["notifications/cancelled", "notifications/progress", "custom/answers", "custom/raises", "nosuch"]
 
@@ -128,7 +130,7 @@ ARGUMENTS = ["<absent>", {}, {"text": "x"}, {"text": None}, {"text": [1, {"a": N
              None, [1], "s", 5, {"text": ""}, {"text": 0}, {"text": False}, {"text": []}, {"text": {}}, {"text": H.HOSTILE_TEXT},
              [], "", 0, False, {"": 1}, {"handler": 1}, {"name": "echo"}]
 ARGUMENTS_Q = ["<absent>", {}, {"text": ""}, {"text": 0}, {"other": 1}, None, [], "", 0, False, {"text": H.HOSTILE_TEXT}]
-NAME_EXTRAS = ["nosuch", "ECHO", "echo ", 5, 0, 7, 7.0, 1.5, True, False, None, ["echo"], {"name": "echo"}, [], {}, "<absent>"]
+NAME_EXTRAS = ["cafe\u0301", "caf\u00e9 ", "bom", "\ufeffecho", "STRASSE", "Strasse", "nosuch", "ECHO", "echo ", 5, 0, 7, 7.0, 1.5, True, False, None, ["echo"], {"name": "echo"}, [], {}, "<absent>"]
 URI_EXTRAS = ["file:///nosuch", "FILE:///OK", 5, 0, True, False, None, ["file:///ok"], {"uri": "file:///ok"}, [], {}, 1.5, "<absent>"]
 INIT_PARAMS = ["<absent>", None, {}, {"protocolVersion": "2025-06-18", "clientInfo": {"name": "c", "version": "1"}, "capabilities": {}},
                {"protocolVersion": "2025-06-18"}, {"clientInfo": None}, {"clientInfo": 5, "capabilities": []},
@@ -235,6 +237,12 @@ def directed(budget):
         if me != "<absent>":
             out.append(mk(me, 1, {}, "list"))
             out.append(mk(me, "<absent>", {}, "list"))
+    # size: one message far above every buffer (300 KB of params, 1 MB method name), for every core method
+    for me in CORE_METHODS + ["custom/none", "reenter/request/raises"]:
+        for i in ("<absent>", 0, "big"):
+            out.append(mk(me, i, BIG_PARAMS))
+    for i in ("<absent>", 0, "i" * 1000000):
+        out.append(mk("y" * 1000000, i, {}))
     # ids harvested from the source (error codes, limits) and session-id arguments of every kind
     for me in CORE_METHODS:
         for i in hints + harvest()[0][::4]:
@@ -390,6 +398,20 @@ def sequences(rng, n):
                 if k == 3:
                     c["debug"] = True
                 out.append(c)
+    # the environment moves: hours, a day, a year pass (or the clock is put back) between two messages that carry the id of a
+    # live session — the session store is consulted on every dispatch with a session id, before the handler
+    init = ("initialize", 1, {"protocolVersion": "2025-06-18", "clientInfo": {"name": "c"}})
+    followers = [("ping", 2, "<absent>"), ("nosuch", 2, {}), ("custom/raises", 2, {}), ("tools/call", 2, {"name": "echo"}),
+                 ("notifications/cancelled", "<absent>", {"requestId": 1}), ("custom/raises", "<absent>", {}), init, ("tools/list", 0, {})]
+    for adv in (0, 1, 59, 60, 61, 3599, 3600, 3601, 7200, 86400, 86400 * 400, -3600):
+        for f in followers:
+            out.append({"seq": [dict(mk(*init)), dict(mk(*init)), dict(mk(*f), sid="$last", advance=adv),
+                                dict(mk(*f), sid="$last", advance=adv), dict(mk("ping", 3, "<absent>"), sid="$last", advance=1)]})
+    # growth: the 600th message of a session, a table of sessions that only grows
+    long_seq = [dict(mk(*init))]
+    for k in range(600):
+        long_seq.append(dict(mk(*(init if k % 7 == 0 else ("ping", k, "<absent>"))), sid="$last", advance=k % 3))
+    out.append({"seq": long_seq})
     for f in fixed:
         for reuse in (False, True):
             for sid in (None, "$last", ""):
